@@ -42,7 +42,7 @@ package xpair1
 //@   ensures name == protocol.OptionTTL ==> (isnil(result) <==> is_int(value) && 1 <= int_of(value) && int_of(value) <= 255)
 //@   ensures name == protocol.OptionTTL && !isnil(result) ==> result == protocol.ErrBadValue
 //@   ensures name == protocol.OptionTTL && isnil(result) ==> s.ttl == int_of(value)
-//@   ensures !isnil(result) ==> unchanged(s.bestEffort, s.recvExpire, s.recvQLen, s.sendExpire, s.sendQLen, s.ttl)
+//@   ensures !isnil(result) && (name == protocol.OptionBestEffort || name == protocol.OptionRecvDeadline || name == protocol.OptionSendDeadline || name == protocol.OptionReadQLen || name == protocol.OptionWriteQLen || name == protocol.OptionTTL) ==> unchanged(s.bestEffort, s.recvExpire, s.recvQLen, s.sendExpire, s.sendQLen, s.ttl)
 //@
 //@ func (*socket).GetOption
 //@   ensures option != protocol.OptionBestEffort && option != protocol.OptionRecvDeadline && option != protocol.OptionSendDeadline && option != protocol.OptionReadQLen && option != protocol.OptionWriteQLen && option != protocol.OptionTTL && option != protocol.OptionRaw ==> result1 == protocol.ErrBadOption && isnil(result0)
